@@ -2,6 +2,7 @@
 //
 //	cfg rr
 //	upsert <key> [w]     -> ok | err <kind>
+//	upserts <key> w...   -> ok | err <kind>   (UpsertServer with several Weight options)
 //	remove <key>         -> ok | err notfound
 //	weight <key>         -> <w> | none
 //	next | nextm         -> ok <key> | err noservers | err allzero   (nextm: the caller then rewrites the URL it got)
@@ -46,6 +47,16 @@ func (s *h) Op(f []string) string {
 			err = s.rr.UpsertServer(u(f[1]))
 		}
 		if err != nil {
+			return "err " + strings.ReplaceAll(err.Error(), " ", "_")
+		}
+		return "ok"
+	case "upserts":
+		// several Weight options in one call (the last may be negative: the call fails after the earlier ones were applied)
+		var opts []roundrobin.ServerOption
+		for _, t := range f[2:] {
+			opts = append(opts, roundrobin.Weight(hx.Atoi(t)))
+		}
+		if err := s.rr.UpsertServer(u(f[1]), opts...); err != nil {
 			return "err " + strings.ReplaceAll(err.Error(), " ", "_")
 		}
 		return "ok"
